@@ -16,13 +16,13 @@ WHAT = {
  "C10": ("node model: request routing to eligible ready peers, id assignment, answer correlation", "C10"),
  "C11": ("watchdog clauses of the timer check for all clock and timeout values", "C11"),
  "C12": ("reconnect policy iff-theorem, DPR handling", "C12"),
- "C13": ("removal lemmas for the connection/socket tables and peer records", "C13"),
+ "C13": ("node model: the connection/socket tables stay mutually consistent for every sequence of operations (a removed connection is in none of them); removal lemmas for peer records and readiness", "C13"),
  "C14": ("node + threading-application model: no worker dies, every slot accounted for, consumers alive — for every sequence of operations (faults, handler outcomes, consumer/handler schedules)", "C14"),
  "C15": ("write path as an interleaving system of queueing threads, writer and I/O loop (program extracted from the running code): accepted bytes are always a prefix of, finally equal to, the FIFO concatenation, for every schedule, partial write and write error", "C15"),
  "C16": ("identifier generators: never zero, wrap to 1, distinct within the period, start-value and session-id format laws; for the line skeleton extracted from the source, distinctness under every schedule of any number of threads", "C16"),
  "C17": ("retransmission window: reject iff answered-within-window and T; the window is exactly the last rq answered ids for every sequence of answers", "C17"),
- "C18": ("shutdown clauses on the serialised node model", "C18"),
- "C19": ("retained-state bounds at quiescence", "C19"),
+ "C18": ("serialised node model: shutdown clauses; the stopping flag is never lowered and, in every state of every continuation of a history containing stop(), timer check, reconnect pass and admission of newcomers do nothing", "C18"),
+ "C19": ("node model, for every sequence of operations: a connection whose workers run is registered, pending-answer tables exist for registered connections only, and once no connection is registered every worker has stopped and the per-connection tables are empty; step lemmas for the per-transaction tables", "C19"),
  "C20": ("answer class pairing (kernel-checked) and header law", "C20"),
 }
 PARTIAL = {"C14": "OS-thread liveness and join timing are runtime behaviour: the model carries every place where an exception can escape a worker and the slot bookkeeping; the harness runs the real code with inert thread stubs and checks their liveness and a reconnect-and-serve probe against a fresh node",
@@ -32,6 +32,8 @@ PARTIAL = {"C14": "OS-thread liveness and join timing are runtime behaviour: the
            "C10": "the blocking Event.wait and the timeout/late-answer race are modelled as the two atomic orders",
            "C04": "wall-clock linearity is measured as supporting evidence only",
            "C09": "the serialised node model does not interleave threads; the racing-submissions part models route_answer as two shared-state steps (lookup, removal); equal hop-by-hop ids on two connections are a recorded finding",
+           "C19": "per-transaction tables (_origin_waiting_answer, _app_waiting_answer, statistics windows) are covered by step lemmas and by comparing sizes across N on the real code, not by the whole-history induction; _app_waiting_answer never being pruned is a recorded finding",
+           "C13": "Peer.connection / application-readiness clauses: step lemmas plus the invariant checked on the real code after every event; a second connection of a connected peer orphaned when the first ends is a recorded finding",
            "C03": "premise of the round-trip theorem: generated AVPs fit the 24-bit length field; objects are compared attribute by attribute (the storage order of a Python __dict__ is not modelled)"}
 built = sorted(p["id"] for p in props if os.path.exists(os.path.join(V, "harness", p["id"].lower() + ".py")))
 checks = []
